@@ -368,6 +368,19 @@ pub struct RecQuery {
     pub to: usize,
 }
 
+/// on-the-fly expectation for long query sequences (more queries than the tape holds): every query must be
+/// I | q | u16(k) | 0xff | seed[..n] with k = running index; nothing is stored
+pub struct RecExpect {
+    pub active: bool,
+    pub i: [u8; 16],
+    pub q: [u8; 4],
+    pub seed: [u8; 32],
+    pub n: usize,
+    pub ok: bool,
+    pub count: usize,
+}
+pub static mut REC_EXPECT: RecExpect = RecExpect { active: false, i: [0; 16], q: [0; 4], seed: [0; 32], n: 0, ok: true, count: 0 };
+
 pub struct RecState {
     pub q: [RecQuery; REC_MAXQ],
     pub nq: usize,
@@ -403,6 +416,21 @@ impl RecCore {
     }
     fn emit(&self) -> [u8; 32] {
         unsafe {
+            if REC_EXPECT.active {
+                let k = REC_EXPECT.count;
+                let n = REC_EXPECT.n;
+                let mut good = self.len == 23 + n;
+                let mut j = 0;
+                while j < 16 { if self.head[j] != REC_EXPECT.i[j] { good = false; } j += 1; }
+                let mut j = 0;
+                while j < 4 { if self.head[16 + j] != REC_EXPECT.q[j] { good = false; } j += 1; }
+                if self.head[20] != (k >> 8) as u8 || self.head[21] != k as u8 || self.head[22] != 0xff { good = false; }
+                let mut j = 0;
+                while j < 32 { if j < n && self.head[23 + j] != REC_EXPECT.seed[j] { good = false; } j += 1; }
+                if !good { REC_EXPECT.ok = false; }
+                REC_EXPECT.count = k + 1;
+                return any_digest();
+            }
             let k = REC.nq;
             if k >= REC_MAXQ {
                 REC.overflow = true;
